@@ -1098,3 +1098,71 @@ func TestVerifC17StepDuplicates(t *testing.T) {
 		}
 	}
 }
+
+// TestVerifC17GennaroSizes: the Gennaro-style part (square-free, prime-power, disjoint, almost-safe-prime
+// product; run as a whole through the quasi-safe-prime-product proof) for good keys of MANY sizes, in
+// particular every size at which the number of 256-bit blocks of a derived hash number changes between
+// neighbouring lengths (|N| around multiples of 128): prover and verifier derive their challenges from
+// lengths computed separately and have to agree at every size.
+func TestVerifC17GennaroSizes(t *testing.T) {
+	r := vkit.Start(t, "C17", "gennaro-part-per-size", 300*time.Second, 900*time.Second)
+	defer r.Finish()
+	sizes := []uint{48, 56, 62, 63, 64, 65, 66, 67, 96, 127, 128, 129, 130}
+	if vkit.Thorough() {
+		sizes = nil
+		for b := uint(40); b <= 136; b++ {
+			sizes = append(sizes, b)
+		}
+	}
+	r.Rule = fmt.Sprintf("safe primes p, q of b bits each for b in %v (two keys per size, CanProve), 3 nonces each; honest quasi-safe-prime-product proof (all four Gennaro-style parts) built and verified; non-trivial = distinct (size, key, nonce); oracle: accepted", sizes)
+	for _, bits := range sizes {
+		if _, mine := r.Next(); !mine {
+			continue
+		}
+		if r.Expired() {
+			return
+		}
+		rd := c17Seeded(fmt.Sprintf("gennaro-size-%d", bits))
+		for key := 0; key < 2; key++ {
+			var P, Q *big.Int
+			for tries := 0; tries < 400; tries++ {
+				P, Q = c17SafePrime(rd, int(bits)), c17SafePrime(rd, int(bits))
+				if P.Cmp(Q) != 0 && CanProve(new(big.Int).Rsh(P, 1), new(big.Int).Rsh(Q, 1)) {
+					break
+				}
+				P = nil
+			}
+			if P == nil {
+				r.Count(fmt.Sprintf("no provable pair of %d-bit safe primes found", bits), 1)
+				continue
+			}
+			N := new(big.Int).Mul(P, Q)
+			Pp, Qp := new(big.Int).Rsh(P, 1), new(big.Int).Rsh(Q, 1)
+			for nonce := byte(0); nonce < 3; nonce++ {
+				desc := fmt.Sprintf("%d-bit primes (|N|=%d), key %d, nonce %d", bits, N.BitLen(), key, nonce)
+				r.Eval()
+				r.Nontrivial(desc)
+				ch := common.HashCommit([]*big.Int{N, big.NewInt(int64(nonce))}, false)
+				var ok, built bool
+				for attempt := byte(0); attempt < 100 && !built; attempt++ {
+					// (on small moduli a derived base falls outside Z_N* for some nonces: the builder panics by design)
+					common.VerifSeedCPRNG([32]byte{44, byte(bits), nonce, attempt})
+					pan, _ := vkit.Guard(func() {
+						_, qc := quasiSafePrimeProductBuildCommitments(nil, Pp, Qp)
+						proof := quasiSafePrimeProductBuildProof(Pp, Qp, ch, qc)
+						ok = quasiSafePrimeProductVerifyStructure(proof) && quasiSafePrimeProductVerifyProof(N, ch, proof)
+					})
+					built = !pan
+				}
+				r.Outcome(fmt.Sprintf("|N| mod 128 in [0,3]=%v:built=%v:accepted=%v", N.BitLen()%128 <= 3, built, ok))
+				if !built {
+					r.Count("no usable nonce for "+desc, 1)
+					continue
+				}
+				if !ok {
+					r.Violate("C17|gennaro-part|honest-proof-of-a-good-key-rejected", desc, desc)
+				}
+			}
+		}
+	}
+}
